@@ -32,7 +32,7 @@ LEVEL_NOTE = ("Derivative oracle is numerical: a Jacobian error below 1e-6 relat
 DESIGN_REF = "DESIGN.md section 4, C01"
 ASSUMPTIONS = ["evaluation points inside smooth domains (enforced by frozen rescaling)",
                "AdArray is the left operand when combined with ndarrays (documented restriction)"]
-REQUIRED = {"bin": 0.12, "rbin": 0.04, "mat": 0.1, "slice": 0.1, "max": 0.03, "norm": 0.03, "analytic": 0.1, "homog": 0.03,
+REQUIRED = {"bin": 0.12, "rbin": 0.04, "mat": 0.1, "slice": 0.1, "slice-negative": 0.02, "slice-mask": 0.01, "max": 0.03, "norm": 0.03, "analytic": 0.1, "homog": 0.03,
             "homog-small": 0.01}
 
 
@@ -57,7 +57,9 @@ def _homog_spec(draw):
 
 def strategy(tier):
     trees = tree_spec(max_depth=4 if tier == "quick" else 6)
-    return st.one_of(trees, trees, trees, trees, trees, trees, trees, _homog_spec())
+    homog = _homog_spec()
+    # (st.one_of drops repeated alternatives, so the 7 : 1 weighting needs an explicit draw)
+    return st.integers(0, 7).flatmap(lambda k: homog if k == 0 else trees)
 
 
 def _check_homog(spec):
